@@ -105,6 +105,15 @@ Definition colors_ok (g : registry) : bool :=
              | [] => true
              end) (r_colors g).
 
+(* file and function name of the caller are copied verbatim *)
+Definition caller_texts_ok (c : option (bytes * Z * bytes)) : bool :=
+  match c with None => true | Some (file, _, fn) => text_ok file && text_ok fn end.
+
+(* every custom short tag registered for width n is n bytes long *)
+Definition tags_ok (g : registry) : bool :=
+  forallb (fun row : Z * list (Z * bytes) =>
+             forallb (fun lt : Z * bytes => Nat.eqb (length (snd lt)) (Z.to_nat (fst row))) (snd row)) (r_tags g).
+
 (* the domain of the layout claim: no '<', '>', '&', no control character other than LF *)
 Definition layout_byte (b : byte) : bool :=
   let n := bz b in
